@@ -569,6 +569,8 @@ static int op_reg(struct rthr *th, int id, const struct pop *op)
 			o->xi[7] = 0;
 			th->api_try = 0;
 			if (ret != 0) {
+				if (c->ctype < 3)
+					viol("ANY.spurious_failure", "iv_fd_register_try (fd obj %d, descriptor %d) reported failure for an open descriptor that can be polled", id, fd);
 				PROBE[PR_TRY_FAILED]++;
 				o->xi[6] = 1;
 				if (!po->p[5])
